@@ -25,7 +25,8 @@ RULE = ("per database (posc, simple; nocat for UnitDatabase.Convert) and per qua
         "ChangeScalars, category default in a unit, IndexAsScalar, ChangingIndex, ConvertToCurrent, "
         "ConvertScalarToCurrent; containers of length 0-5; int64/int32 ndarrays with magnitudes beyond 2**63/coefficient "
         "from every unit with a coefficient >= 2**31; route SEQUENCES on one Array/FixedArray (a route with a foreign "
-        "unit, the caller edits the returned container, further routes with the same / alternating units); plus derived/empty quantities and a malformed stream; "
+        "unit, the caller edits the returned container, further routes with the same / alternating units); the same "
+        "numpy-backed object / caller-owned float64, float32 or int ndarray asked several times (offset units first); plus derived/empty quantities and a malformed stream; "
         "distinct = distinct model line; non-trivial = succeeded with from-unit != to-unit")
 EXHAUSTIVE = {"quick": False, "thorough": False}
 ASSUMPTIONS = [
@@ -187,7 +188,7 @@ def _mk_val(v):
         xs = v["xs"]
         if xs and all(isinstance(x, int) for x in xs):
             return np.array(xs, dtype=(np.int32 if v.get("dtype") == "int32" else np.int64))
-        return np.array(xs, dtype=float)
+        return np.array(xs, dtype=(np.float32 if v.get("dtype") == "float32" else float))
     items = [tuple(e) if isinstance(e, list) else e for e in v["es"]]
     return tuple(items) if v["k"] == "tuple" else items
 
@@ -299,11 +300,11 @@ def _pre_step(obj, st):
     return obj.IndexAsScalar(st["index"], ObtainQuantity(st["unit"], st["cat"])), None
 
 
-def _apply_pre(obj, pre, on_result=None):
+def _apply_pre(obj, pre, on_result=None, call=None):
     """route SEQUENCES on one object: r1 with a foreign unit, the caller scribbles on what r1 returned, then the
     next route; the stored values are never touched (a container that IS the store is left alone)"""
     for k, st in enumerate(pre or []):
-        r, container = _pre_step(obj, st)
+        r, container = call(st) if call is not None else _pre_step(obj, st)
         if on_result is not None:
             bad = on_result(k, st, r)
             if bad:
@@ -325,9 +326,15 @@ def _run(c, ctx):
         if op == "q_convert_scalar":
             return _mk_q(t["q"]).ConvertScalarValue(t["x"], t["to"])
         if op == "q_convert":
-            return _mk_q(t["q"]).Convert(_mk_val(t["val"]), t["to"])
+            q, val = _mk_q(t["q"]), _mk_val(t["val"])
+            for st in t.get("pre") or []:
+                q.Convert(val, st["unit"])          # the same caller-owned container is converted again
+            return q.Convert(val, t["to"])
         if op == "db_convert":
-            return db.Convert(_mk_catarg(t["cq"]), _mk_unitarg(t["from"]), _mk_unitarg(t["to_arg"]), _mk_val(t["val"]))
+            val = _mk_val(t["val"])
+            for st in t.get("pre") or []:
+                db.Convert(_mk_catarg(t["cq"]), _mk_unitarg(t["from"]), st["unit"], val)
+            return db.Convert(_mk_catarg(t["cq"]), _mk_unitarg(t["from"]), _mk_unitarg(t["to_arg"]), val)
         if op == "array_getvalues":
             a = _mk_fixed(t["dim"], t["q"], t["val"]) if t.get("dim") else _mk_array(t["q"], t["val"])
             _apply_pre(a, t.get("pre"))
@@ -409,6 +416,15 @@ def impl(c, ctx):
 
 
 # ----------------------------------------------------------------------------------------- comparison
+_KTOL = [64]     # 64 for doubles; a float32 ndarray is computed in single precision (eps 2**-24)
+
+
+def _set_tol(c):
+    f32 = (c["_t"].get("val") or {}).get("dtype") == "float32"
+    _KTOL[0] = 64 * 2 ** 29 if f32 else 64
+    _REL[0] = 1e-5 if f32 else 1e-9
+
+
 def _num_agree(rh, ym):
     r = float.fromhex(rh)
     y, m = qparse(ym[0]), qparse(ym[1])
@@ -417,7 +433,7 @@ def _num_agree(rh, ym):
     if m == 0:
         # (an int64 beyond 2**53 handed through unchanged is read back as the nearest double)
         return None if (exact(r) == y or r == float(y)) else "value %r should be exactly %s (handed through unchanged)" % (r, float(y))
-    return None if close(r, y, m) else "float %r is not within K*eps*M of the exact %s" % (r, float(y))
+    return None if close(r, y, m, _KTOL[0]) else "float %r is not within K*eps*M of the exact %s" % (r, float(y))
 
 
 def _val_agree(iv, mv):
@@ -456,6 +472,7 @@ def _scalar_agree(i, m):
 
 
 def agree(c, io, mo, ctx):
+    _set_tol(c)
     if mo.get("outside"):
         return None  # outside the model (stated in ASSUMPTIONS); counted separately
     if "err" in io or "err" in mo:
@@ -916,6 +933,71 @@ def _seq_stream(ctx, salt, n):
                         pre=pre, _nt=True)
 
 
+def _f32(x):
+    return float(np.float32(x))
+
+
+def _same_container_stream(ctx, salt, n):
+    """the SAME numpy-backed object (Array / FixedArray) or the same caller-owned ndarray (UnitDatabase.Convert,
+    Quantity.Convert) is asked several times: every later answer must still be the float conversion of the original
+    values and the own-unit values must be unchanged (a conversion closure that works in place on its argument
+    shifts the store).  float64 / float32 / int ndarrays; own units with an offset (degC, Pa(g), degF, psig, ...)
+    and without"""
+    rng = ctx.fresh_rng("C02same" + salt)
+    db = ctx.dbs["posc"]
+    aff_types = sorted({r["qtype"] for r in ctx.data["posc"]["units"] if r["sym"] in ctx.affine["posc"]
+                        and ctx.cats_of_type["posc"].get(r["qtype"])})
+    all_types = sorted(qt for qt in db.quantity_types if ctx.cats_of_type["posc"].get(qt) and len(db.quantity_types[qt]) >= 2)
+    for _ in range(n):
+        qt = rng.choice(aff_types) if rng.random() < 0.75 else rng.choice(all_types)
+        units = [i.unit for i in db.quantity_types[qt]]
+        aff = sorted(w for w in units if w in ctx.affine["posc"])
+        special = [w for w in ("degC", "Pa(g)", "degF", "psig") if w in units]
+        z = rng.random()
+        u = rng.choice(special) if (special and z < 0.5) else (rng.choice(aff) if (aff and z < 0.75) else rng.choice(units))
+        cats = ctx.cats_of_type["posc"][qt]
+        c = rng.choice(cats)
+        L = rng.randrange(2, 6)
+        dt = rng.choice(("float64", "float64", "float32", "int"))
+        if dt == "int":
+            xs = [int(rng.uniform(-300, 300)) for _ in range(L)]
+            val = dict(k="nd", xs=xs)
+        elif dt == "float32":
+            val = dict(k="nd", xs=[_f32(rng.uniform(-300, 300)) for _ in range(L)], dtype="float32")
+        else:
+            val = dict(k="nd", xs=[float(y) for y in _values(db, qt, u, rng, L, ints=False)])
+        targets = [rng.choice(units + [u]) for _ in range(rng.randrange(1, 4))]
+        if all(w == u for w in targets):
+            targets[0] = rng.choice([w for w in units if w != u])
+        last = rng.choice(units + [u, u])
+        kind = rng.randrange(5)
+        q = _sq(c, u)
+        if kind == 0:
+            pre = [dict(route="db_convert", unit=w, mutate=None) for w in targets]
+            yield _case("db_convert", db="posc", cq=dict(k="str", c=rng.choice((qt, c))), to_arg=dict(k="str", u=last), val=val,
+                        pre=pre, _nt=True, **{"from": dict(k="str", u=u)})
+        elif kind == 1:
+            pre = [dict(route="q_convert", unit=w, mutate=None) for w in targets]
+            yield _case("q_convert", db="posc", q=q, val=val, to=last, pre=pre, _nt=True)
+        else:
+            fixed = rng.random() < 0.5
+            pre = []
+            for w in targets:
+                route = rng.choice(("getvalues", "getvalues", "values_of_copy") + (("index_as_scalar",) if fixed else ()))
+                st = dict(route=route, unit=w, mutate=None)
+                if route == "index_as_scalar":
+                    st.update(index=rng.randrange(-L, L), cat=rng.choice(cats))
+                pre.append(st)
+            extra = dict(dim=L) if fixed else {}
+            if kind == 2:
+                yield _case("array_getvalues", db="posc", q=q, val=val, unit=rng.choice((last, u, None)), pre=pre, _nt=True, **extra)
+            elif kind == 3:
+                yield _case("array_create_copy", db="posc", q=q, val=val, unit=last, category=None, pre=pre, _nt=True, **extra)
+            else:
+                yield _case("index_as_scalar", db="posc", dim=L, q=q, val=val, index=rng.randrange(-L, L),
+                            quantity=_sq(rng.choice(cats), last), pre=pre, _nt=True)
+
+
 def cases(ctx):
     quick = ctx.tier == "quick"
     ctx.notes["streams"] = {}
@@ -926,6 +1008,7 @@ def cases(ctx):
                       ("derived_empty", _derived_stream(ctx, "corr", 150 if quick else 1500)),
                       ("integer_ndarrays", _int_array_stream(ctx, "corr", 4 if quick else 25)),
                       ("route_sequences_on_one_object", _seq_stream(ctx, "corr", 600 if quick else 6000)),
+                      ("same_container_asked_again", _same_container_stream(ctx, "corr", 600 if quick else 6000)),
                       ("malformed", _malformed_stream(ctx, "corr", 400 if quick else 4000))):
         for c in gen:
             out.append(c)
@@ -945,8 +1028,11 @@ def cases(ctx):
 
 
 # ----------------------------------------------------------------------------------------- the property, on the real code only
+_REL = [1e-9]
+
+
 def _tol(*mags):
-    return 1e-9 * sum(abs(m) for m in mags if isinstance(m, (int, float)) and math.isfinite(m)) + 1e-300
+    return _REL[0] * sum(abs(m) for m in mags if isinstance(m, (int, float)) and math.isfinite(m)) + 1e-300
 
 
 def _ref(db, cq, u, v, x):
@@ -1012,21 +1098,41 @@ def _check_vals(db, cq, u, v, val, r, clause):
 
 
 def _seq_oracle(c, ctx):
-    """every earlier route of a sequence on one object must already equal the float conversion of the STORED values,
-    element by element and with the stored length, whatever the caller did with earlier results"""
-    t = c["_t"]
+    """every earlier route of a sequence on one object (or on one caller-owned container) must already equal the
+    float conversion of the ORIGINAL stored values, element by element and with the stored length, whatever the
+    caller did with earlier results; and the stored values / the caller's container are unchanged afterwards"""
+    t, op = c["_t"], c["op"]
     db = ctx.dbs[t["db"]]
-    if t["q"]["k"] != "s" or any(isinstance(e, list) for e in t["val"].get("es", [])):
+    if any(isinstance(e, list) for e in t["val"].get("es", [])):
         return None
     xs = _flat_items(t["val"])
     try:
         with _Pushed(db):
             try:
-                q = _mk_q(t["q"])
-                cat, own = q.GetCategory(), q.GetUnit()
+                if op == "db_convert":
+                    if t["cq"]["k"] != "str" or t["from"]["k"] != "str":
+                        return None
+                    cat, own = t["cq"]["c"], t["from"]["u"]
+                    obj = None
+                    arr = _mk_val(t["val"])
+                    call = lambda st: (db.Convert(cat, own, st["unit"], arr), None)
+                elif op == "q_convert":
+                    if t["q"]["k"] != "s":
+                        return None
+                    q = _mk_q(t["q"])
+                    cat, own = q.GetCategory(), q.GetUnit()
+                    obj = None
+                    arr = _mk_val(t["val"])
+                    call = lambda st: (q.Convert(arr, st["unit"]), None)
+                else:
+                    if t["q"]["k"] != "s":
+                        return None
+                    q = _mk_q(t["q"])
+                    cat, own = q.GetCategory(), q.GetUnit()
+                    obj = _mk_fixed(t["dim"], t["q"], t["val"]) if t.get("dim") else _mk_array(t["q"], t["val"])
+                    call = None
                 for st in t["pre"]:
                     _ref(db, cat, own, st["unit"], 1.0)
-                obj = _mk_fixed(t["dim"], t["q"], t["val"]) if t.get("dim") else _mk_array(t["q"], t["val"])
             except Exception:
                 return None  # not a convertible pair / not constructible: outside the property
 
@@ -1035,9 +1141,20 @@ def _seq_oracle(c, ctx):
                 if st["route"] == "index_as_scalar":
                     bad, _w = _near(db, cat, own, st["unit"], r.GetValue(), xs[st["index"]])
                     return dict(clause=where, index=st["index"], **bad) if bad else None
+                if st["unit"] == own:
+                    got, _k = _flat_result(r)
+                    return None if got == [float(x) for x in xs] else dict(clause=where, note="own unit must return the stored values", got=got[:6], want=xs[:6])
                 return _check_vals(db, cat, own, st["unit"], t["val"], r, where)
 
-            return _apply_pre(obj, t["pre"], on_result)
+            bad = _apply_pre(obj, t["pre"], on_result, call)
+            if bad:
+                return bad
+            stored = arr if obj is None else obj.GetValues()
+            got, _k = _flat_result(stored)
+            if got != [float(x) for x in xs]:
+                return dict(clause="conversion routes must leave the stored values / the caller's container unchanged "
+                                   "(own-unit value = stored value)", unit=own, after=[st["unit"] for st in t["pre"]], got=got[:6], want=xs[:6])
+            return None
     except Exception as e:
         return dict(clause="a route of a sequence on one object raised for a convertible unit pair", error=repr(e)[:300])
 
@@ -1048,6 +1165,7 @@ def oracle(c, ctx):
     t, op = c["_t"], c["op"]
     db = ctx.dbs[t["db"]]
     from barril.units import ObtainQuantity
+    _set_tol(c)
     if t.get("pre"):
         bad = _seq_oracle(c, ctx)
         if bad:
@@ -1306,6 +1424,7 @@ def oracle(c, ctx):
 def search(ctx):
     quick = ctx.tier == "quick"
     yield from _main_stream(ctx, "search", 2 if quick else 4, False, None)
+    yield from _same_container_stream(ctx, "search", 400)
     yield from _seq_stream(ctx, "search", 400)
     yield from _int_array_stream(ctx, "search", 6)
     yield from _derived_stream(ctx, "search", 300)
